@@ -816,3 +816,14 @@ def classify(suite, d):
         except Exception:  # noqa: BLE001
             return None
     return None
+
+
+# ------------------------------------------------------------------------------------------------
+# call SEQUENCES in one process (harness/props/c17_seq.py): consecutive tmeasure / lmeasure / evaluate calls on
+# hierarchies that differ by less than 1e-5 s in a boundary on a frame edge (or only in labels / frame grid / window)
+from props import c17_seq as _SEQ  # noqa: E402
+CHECKERS.update(_SEQ.CHECKERS)
+ORACLES.update(_SEQ.ORACLES)
+RULE += ("; oracle stream added: sequences of 2-4 plain tmeasure / lmeasure / evaluate calls in one process (module "
+         "state reset first) on hierarchies that differ by less than 1e-5 s in one boundary on a frame edge, or only in "
+         "labels / frame grid / window / level order, each call against the brute-force triplet definition on its own frames")
